@@ -228,8 +228,8 @@ fn extraction(acc: &mut Acc) {
 
 pub fn run(ctx: &Ctx) -> i32 {
     let th = ctx.tier.thorough();
-    let w = if th { 8 } else { 6 };
-    let wo = if th { 6 } else { 5 }; // obscuration patterns on trees up to this weight
+    let w = if th { 9 } else { 8 };
+    let wo = if th { 7 } else { 6 }; // obscuration patterns on trees up to this weight
     let mut trees = families::plain(w);
     let nb = trees.len();
     trees.extend(families::decode_only());
